@@ -8,8 +8,8 @@ EXTENDS Integers, Sequences, TLC
 
 Abs(x) == IF x < 0 THEN -x ELSE x
 Sgn(x) == IF x < 0 THEN -1 ELSE IF x > 0 THEN 1 ELSE 0
-Max(a, b) == IF a >= b THEN a ELSE b
-Min(a, b) == IF a <= b THEN a ELSE b
+Max2(a, b) == IF a >= b THEN a ELSE b
+Min2(a, b) == IF a <= b THEN a ELSE b
 
 RECURSIVE Gcd(_, _)
 Gcd(a, b) == IF b = 0 THEN a ELSE Gcd(b, a % b)
@@ -73,7 +73,7 @@ RECURSIVE ISqrtB(_, _, _)
 ISqrtB(n, lo, hi) == IF lo >= hi THEN lo
                      ELSE LET mid == (lo + hi + 1) \div 2
                           IN  IF mid * mid <= n THEN ISqrtB(n, mid, hi) ELSE ISqrtB(n, lo, mid - 1)
-ISqrt(n) == ISqrtB(n, 0, Min(n, 46340))
+ISqrt(n) == ISqrtB(n, 0, Min2(n, 46340))
 IsSquare(n) == n >= 0 /\ ISqrt(n) * ISqrt(n) = n
 RIsSquare(a) == IsRat(a) /\ IsSquare(a[1]) /\ IsSquare(a[2])
 RSqrt(a) == <<ISqrt(a[1]), ISqrt(a[2])>>       \* defined when RIsSquare(a)
